@@ -107,6 +107,73 @@ def quantifier_structure(chk, m, rid):
     chk.floor('single-union arms of structural_supertype_of', n, 3)
 
 
+def reduce_rule(chk, fx, rid):
+    """Context::reduce_preds drops redundant members of a conjunction ("and": the weaker of two comparable predicates) or of a disjunction ("or": the stronger);
+    the mode must be the connective the member set was taken apart with, and the two tests inside must be the ones of that connective"""
+    CMP = 'crates/erg_compiler/context/compare.rs'
+    chk.rule(rid, 'Context::reduce_preds is called with the mode of the connective its argument was decomposed by (`.ands()` with "and", `.ors()` with "or"), and inside it "and" drops '
+                  'the member that is a super-predicate of another (keeps the tighter bound), "or" the sub-predicate: reducing the conjuncts of `0..10 and 5..20` in "or" mode '
+                  'leaves `0..20`, so `3..7 <: (0..10 and 5..20)` holds while `3..7 <: 5..20` does not (transitivity)')
+    n = 0
+    for f in fx.file(CMP)['fns']:
+        for c in T.calls(f['body']):
+            if c.get('k') == 'MCall' and c['n'] == 'reduce_preds' and len(c['a']) == 2:
+                n += 1
+                mode = T.peel(c['a'][0])
+                mv = mode.get('v') if mode.get('k') == 'Lit' else None
+                mv = mv.get('str') if isinstance(mv, dict) else mv
+                src = [x['n'] for x in T.calls(c['a'][1]) if x.get('k') == 'MCall' and x['n'] in ('ands', 'ors')]
+                key = '%s:%s' % (T.norm(f['path']), T.norm(T.show(c['a'][1]))[:40])
+                if mv is None or len(src) != 1:
+                    chk.need(False, 'reduce_preds call with an unrecognised mode / argument: %s' % T.show(c)[:80])
+                    continue
+                want = 'and' if src[0] == 'ands' else 'or'
+                if str(mv).strip('"') == want:
+                    chk.ok(rid, key, sample=T.show(c)[:80])
+                else:
+                    chk.bad(rid, T.norm(f['path']), 'mode:' + T.norm(T.show(c['a'][1]))[:40], '%s reduces `%s` in "%s" mode: of two comparable members the %s one is kept, which %s the type '
+                            'the predicate denotes' % (T.norm(f['path']), T.show(c['a'][1])[:40], str(mv).strip('"'), 'weaker' if want == 'and' else 'stronger',
+                                                       'widens' if want == 'and' else 'narrows'), CMP, c.get('l'))
+    chk.floor('reduce_preds call sites', n, 4)
+    rp = fx.fn(CMP, 'Context::reduce_preds')
+    # the two match-on-mode tables inside: (remove-existing test, keep-out test)
+    tables = []
+    for m in T.walk(rp['body']):
+        if m.get('k') == 'Match' and T.show(T.peel(m['x'])) == 'mode':
+            row = {}
+            for arm in m['arms']:
+                p = arm['pat']
+                lit = p.get('v') if p.get('k') == 'PLit' else None
+                lit = lit.get('str') if isinstance(lit, dict) else lit
+                if lit is None:
+                    continue
+                body = T.peel(arm['b'])
+                neg = False
+                if body.get('k') == 'Unary' and body.get('op') == '!':
+                    neg, body = True, T.peel(body['x'])
+                if body.get('k') == 'MCall' and body['n'] in ('is_super_pred_of', 'is_sub_pred_of'):
+                    args = [T.show(T.peel(a)) for a in body['a']]
+                    row[str(lit).strip('"')] = (neg, body['n'], tuple(args))
+            tables.append((m, row))
+    if not chk.need(len(tables) == 2 and all(set(r) == {'and', 'or'} for _, r in tables), 'reduce_preds: the two `match mode` tables were not recognised'):
+        return
+    want = [{'and': (False, 'is_super_pred_of'), 'or': (False, 'is_sub_pred_of')}, {'and': (True, 'is_sub_pred_of'), 'or': (True, 'is_super_pred_of')}]
+    for i, ((m, row), w) in enumerate(zip(tables, want)):
+        for mode in ('and', 'or'):
+            neg, fnm, args = row[mode]
+            # normalise argument order: (existing, pred); swapped arguments flip the relation
+            rel = fnm
+            if len(args) == 2 and 'existing' in args[1] and 'pred' in args[0]:
+                rel = 'is_sub_pred_of' if fnm == 'is_super_pred_of' else 'is_super_pred_of'
+            key = 'table%d:%s' % (i, mode)
+            if (neg, rel) == w[mode]:
+                chk.ok(rid, key)
+            else:
+                chk.bad(rid, 'Context::reduce_preds', key, 'reduce_preds, "%s" mode, %s test: `%s%s(%s)`; for a %s the member to %s is the %s one' %
+                        (mode, 'removal' if i == 0 else 'insertion', '!' if neg else '', fnm, ', '.join(args), 'conjunction' if mode == 'and' else 'disjunction',
+                         'drop' if i == 0 else 'keep out', 'weaker (super-predicate)' if mode == 'and' else 'stronger (sub-predicate)'), CMP, m.get('l'))
+
+
 def union_rule(chk, fx):
     import itertools
     chk.rule('C06-union', 'subtyping of unions is a preorder: the three union arms of Context::structural_supertype_of — (Or, Or), (Or, t) and (t, Or) — are read as quantifier formulas '
@@ -378,6 +445,7 @@ def run(chk):
     union_rule(chk, fx)
     from sa.kinds import arity
     arity.rule(chk, fx, 'C06-arity', ('refl',))
+    reduce_rule(chk, fx, 'C06-reduce')
     return ('The arms of Context::cheap_supertype_of are evaluated in order (resolved variant patterns, guards through the variant set of '
             'Type::is_mono_value_class) on every ordered pair of the six numeric classes and on Obj/Never against every built-in unit type. '
             'Decides the tower/top/bottom clauses only; reflexivity/transitivity over structural types are not decided.'), {'exhaustive': True}
